@@ -80,4 +80,31 @@ library's float arithmetic) -/
 def rateOK (q fi rate : Int) : Bool :=
   decide (100000000000 * ((q * 1000000000 - rate * fi).natAbs : Int) ≤ 1000000001 * (rate * fi))
 
+/-! ### the constructor's search for `(quantum, fillInterval)` (`NewBucketWithRateAndClock`)
+
+In exact arithmetic, for an integer rate (Cloak passes `float64(rate)` of an `int64`; the harness compares the result
+with what the real constructor chose for every rate it builds, `tb.search`): try `quantum = 1, nextQuantum(1), …` below
+`2⁵⁰`; `fillInterval = ⌊10⁹·quantum/rate⌋` ns, skipped when 0; accept when the real rate `10⁹·quantum/fillInterval` is
+within 1 % of the rate. `fuel` only makes the recursion structural: the sequence passes `2⁵⁰` after fewer than 400 steps. -/
+
+/-- `nextQuantum` -/
+def nextQ (q : Int) : Int :=
+  let q1 := Gen.Valve.tbNextQuantumFirst q
+  if q1 = q then q1 + 1 else q1
+
+/-- `|Rate() - rate| / rate <= 0.01`, exactly -/
+def within (q fi rate : Int) : Bool :=
+  decide (100 * ((q * 1000000000 - rate * fi).natAbs : Int) ≤ rate * fi)
+
+def searchFrom (rate : Int) : Nat → Int → Option (Int × Int)
+  | 0, _ => none
+  | n + 1, q =>
+    if q < 2^50 then
+      if 1000000000 * q / rate ≤ 0 then searchFrom rate n (nextQ q)
+      else if within q (1000000000 * q / rate) rate then some (q, 1000000000 * q / rate)
+      else searchFrom rate n (nextQ q)
+    else none
+
+def search (rate : Int) : Option (Int × Int) := searchFrom rate 4000 1
+
 end TB
